@@ -50,7 +50,7 @@ func (c *Ctx) LoadFC(dir string) *FC {
 		// an extracted helper (the most common behaviour-preserving refactoring); see baseline_funcs.go
 		if base, ok := baselineFuncs[filepath.Base(m.Dir)]; ok {
 			for _, g := range prog.Funcs {
-				if g.Generated && !base[g.Name] && g.Key != skip && !reachesItself(prog, g) {
+				if (g.Generated || isExpressionFunc(g)) && !base[g.Name] && g.Key != skip && !reachesItself(prog, g) {
 					n.Inline[g.Key] = g
 				}
 			}
@@ -282,6 +282,16 @@ type attributed struct {
 	Body  *ir.Func // the body to walk
 }
 
+// isExpressionFunc: a hand-written function whose whole body is `return <expression>` (a predicate extracted from
+// a loop condition); like a generated helper it is read as the expression it stands for.
+func isExpressionFunc(g *ir.Func) bool {
+	if g.Decl == nil || g.Decl.Recv != nil || g.Decl.Body == nil || len(g.Decl.Body.List) != 1 || len(g.Params) == 0 {
+		return false
+	}
+	rs, ok := g.Decl.Body.List[0].(*ast.ReturnStmt)
+	return ok && len(rs.Results) == 1
+}
+
 // IsNewHelper: fn was added since the review and is inlined into every normal form that calls it; a rule that
 // walks the normal form of every function skips it (its callers' forms contain it).
 func (f *FC) IsNewHelper(fn *ir.Func) bool {
@@ -289,7 +299,7 @@ func (f *FC) IsNewHelper(fn *ir.Func) bool {
 		return false
 	}
 	base, has := baselineFuncs[filepath.Base(f.M.Dir)]
-	return has && fn.Generated && !base[fn.Name]
+	return has && (fn.Generated || isExpressionFunc(fn)) && !base[fn.Name]
 }
 
 func (f *FC) Attributed() []attributed {
@@ -302,7 +312,7 @@ func (f *FC) Attributed() []attributed {
 			return false
 		}
 		base, has := baselineFuncs[filepath.Base(f.M.Dir)]
-		return has && g.Generated && !base[g.Name]
+		return has && (g.Generated || isExpressionFunc(g)) && !base[g.Name]
 	}
 	// raw references
 	callers := map[string]map[*ir.Func]bool{}
